@@ -221,16 +221,20 @@ func (c *LocalActionsCache) FindMetadata(spec string) (*ActionMetadata, bool, er
 		return nil, false, nil
 	}
 
+	verifPoint("ac-read", spec, nil, nil)
 	if m, ok := c.readCache(spec); ok {
+		verifPoint("ac-hit", spec, nil, nil)
 		c.debug("Cache hit for %s: %v", spec, m)
 		return m, true, nil
 	}
+	verifPoint("ac-miss", spec, nil, nil)
 
 	dir := filepath.Join(c.proj.RootDir(), filepath.FromSlash(spec))
 	b, f, ok := c.readLocalActionMetadataFile(dir)
 	if !ok {
 		c.debug("No action metadata found in %s", dir)
 		// Remember action was not found
+		verifPoint("ac-write", spec, nil, nil)
 		c.writeCache(spec, nil)
 		// Do not complain about the action does not exist (#25, #40).
 		// It seems a common pattern that the local action does not exist in the repository
@@ -240,6 +244,7 @@ func (c *LocalActionsCache) FindMetadata(spec string) (*ActionMetadata, bool, er
 
 	var meta ActionMetadata
 	if err := yaml.Unmarshal(b, &meta); err != nil {
+		verifPoint("ac-write", spec, nil, err)
 		c.writeCache(spec, nil) // Remember action was invalid
 		msg := strings.ReplaceAll(err.Error(), "\n", " ")
 		return nil, false, fmt.Errorf("could not parse action metadata in %q: %s", dir, msg)
@@ -250,6 +255,7 @@ func (c *LocalActionsCache) FindMetadata(spec string) (*ActionMetadata, bool, er
 	meta.dir = dir
 
 	c.debug("New metadata parsed from action %s: %v", dir, &meta)
+	verifPoint("ac-write", spec, nil, nil)
 	c.writeCache(spec, &meta)
 	return &meta, false, nil
 }
